@@ -119,7 +119,7 @@ class World:
 
             @t.Resolver("%s.%s" % (tn, fn), schema_name=sn, **kw)
             async def resolver(parent, args, ctx, info):
-                cs = world.case
+                cs = ctx.get("__cs") if isinstance(ctx, dict) and "__cs" in ctx else world.case
                 path = tuple(render.path_spec(info.path.as_list()))
                 cs.calls.append((path, world.ident(parent), dict(args), ctx))
                 raw = cs.table.get(path)
